@@ -70,7 +70,7 @@ theorem step_connect_inv {s : Server} (h : SyncInv s) (hw : WF s) (conn : Nat) (
   rw [step]
   split
   rename_i s1 o h1
-  obtain ⟨a1, l1, p1, c1⟩ := connect_inv h hw conn k hf
+  obtain ⟨a1, l1, p1, c1, _⟩ := connect_inv h hw conn k hf
   have w1 := connect_wf s conn k hw hf
   rw [h1] at a1 l1 p1 c1 w1
   replace a1 : SyncInv s1 := a1
@@ -535,7 +535,7 @@ theorem step_seq_lists {s : Server} (op : Op) (hseq : op.isSeq = true) (h : Sync
     rw [step]
     split
     rename_i s1 o h1
-    obtain ⟨a1, l1, p1, c1⟩ := connect_inv h hw conn k hf
+    obtain ⟨a1, l1, p1, c1, _⟩ := connect_inv h hw conn k hf
     have w1 := connect_wf s conn k hw hf
     rw [h1] at a1 l1 p1 c1 w1
     replace a1 : SyncInv s1 := a1
@@ -666,5 +666,125 @@ theorem SeqOps.schedOK (caps : Caps) (ops : List Op) (hseq : SeqOps ops) (hf : O
 theorem IndexSync_run_seq (caps : Caps) (ops : List Op) (hseq : SeqOps ops) (hf : OpsFresh (init caps) ops) :
     IndexSync (run (init caps) ops) :=
   IndexSync_run_partial caps ops hf (hseq.schedOK caps ops hf)
+
+/-! ### consequences: sessions without subscriptions have no entries -/
+
+/-- an id nobody is registered under has no entry in the index -/
+theorem IndexSync.no_entry_of_unregistered {s : Server} (h : IndexSync s) (cid : Str)
+    (hu : ∀ i, (cid, i) ∉ s.clients) (f : Str) : (cid, f) ∉ indexEntries s.topics := by
+  intro hm
+  obtain ⟨i, hi, _⟩ := (IndexSync_iff s).mp h cid f hm
+  exact hu i hi
+
+/-- an id whose registered session holds no subscription has no entry in the index -/
+theorem IndexSync.no_entry_of_no_subs {s : Server} (h : IndexSync s) (cid : Str)
+    (hs : ∀ i, (cid, i) ∈ s.clients → (getObj s i).subs = []) (f : Str) : (cid, f) ∉ indexEntries s.topics := by
+  intro hm
+  obtain ⟨i, hi, hf⟩ := (IndexSync_iff s).mp h cid f hm
+  rw [hs i hi] at hf
+  cases hf
+
+theorem detachB_subs_nil (s : Server) (i : Nat) (hi : i < s.objs.length) (h : (getObj s i).subs = []) :
+    (getObj (detachB s i) i).subs = [] := by
+  unfold detachB
+  extract_lets +onlyGivenNames c expire s3 s4 s2
+  show (getObj s2 i).subs = []
+  show (getObj (if (expire && !c.takenOver) = true then _ else s) i).subs = []
+  split
+  · show (getObj (unsubscribeClient (clearInflights s i) i) i).subs = []
+    exact unsubscribeClient_subs _ i (by rw [(clearInflights_quiet s i).len]; exact hi)
+  · exact h
+
+theorem detach_subs_nil (s : Server) (i : Nat) (b : Bool) (hi : i < s.objs.length) (h : (getObj s i).subs = []) :
+    (getObj (detach s i b).1 i).subs = [] := by
+  unfold detach
+  split
+  rename_i s1 o1 heq
+  have q1 : Quiet s s1 := by
+    have := detachA_quiet s i b
+    rw [heq] at this; exact this
+  exact detachB_subs_nil s1 i (by rw [q1.len]; exact hi) (by rw [(q1.obj i).subs]; exact h)
+
+theorem recvOn_pingreq_subs_nil (s : Server) (conn i : Nat) (hc : assocGet s.connOf conn = some i)
+    (hi : i < s.objs.length) (h : (getObj s i).subs = []) :
+    (getObj (recvOn s conn .pingreq false).1 i).subs = [] := by
+  unfold recvOn
+  split
+  · exact h
+  · rename_i i' hc'
+    rw [hc] at hc'
+    cases hc'
+    split
+    · exact h
+    · split
+      rename_i s1 o e heq
+      have q1 : Quiet s s1 := by
+        have := receivePacket_quiet s i .pingreq rfl
+        rw [heq] at this; exact this
+      have hi1 : i < s1.objs.length := by rw [q1.len]; exact hi
+      have h1 : (getObj s1 i).subs = [] := by rw [(q1.obj i).subs]; exact h
+      split
+      · split
+        rename_i s2 o2 hd
+        have := detach_subs_nil s1 i true hi1 h1
+        rw [hd] at this; exact this
+      · split
+        · split
+          rename_i s2 o2 hd
+          have := detach_subs_nil s1 i false hi1 h1
+          rw [hd] at this; exact this
+        · split
+          · rename_i hb; cases hb
+          · exact h1
+
+/-- a connection with Clean Start starts with no subscription (whether admitted or refused) -/
+theorem step_connect_clean_subs {s : Server} (h : SyncInv s) (hw : WF s) (conn : Nat) (k : Connect)
+    (hf : conn ∉ s.connOf.map (·.1)) (hcl : k.clean = true) :
+    (getObj (step s (.connect conn k)).1 s.objs.length).subs = [] := by
+  rw [step]
+  split
+  rename_i s1 o h1
+  obtain ⟨_, _, _, c1, n1⟩ := connect_inv h hw conn k hf
+  have g1 := connect_wf s conn k hw hf
+  rw [h1] at c1 n1 g1
+  replace c1 : s1.connOf = s.connOf ++ [(conn, s.objs.length)] := c1
+  replace n1 : (getObj s1 s.objs.length).subs = [] := n1 hcl
+  have hc : assocGet s1.connOf conn = some s.objs.length := by rw [c1]; exact assocGet_append_fresh _ _ _ hf
+  split
+  · rename_i i' hc'
+    rw [hc] at hc'
+    cases hc'
+    split
+    · split
+      rename_i s2 o2 h2
+      have := recvOn_pingreq_subs_nil s1 conn s.objs.length hc
+        (g1.conn_valid conn _ (assocGet_mem _ _ _ hc)) n1
+      rw [h2] at this
+      exact this
+    · exact n1
+  · exact n1
+
+/-! ### histories that end with a given op -/
+
+theorem run_append (s : Server) (ops : List Op) (op : Op) : run s (ops ++ [op]) = (step (run s ops) op).1 := by
+  unfold run
+  rw [List.foldl_append]
+  rfl
+
+theorem OpsFresh_append {s : Server} {ops : List Op} {op : Op} (h : OpsFresh s (ops ++ [op])) :
+    OpsFresh s ops ∧ OpFresh (run s ops) op := by
+  induction ops generalizing s with
+  | nil => exact ⟨trivial, h.1⟩
+  | cons o rest ih =>
+    obtain ⟨a, b⟩ := ih h.2
+    exact ⟨⟨h.1, a⟩, b⟩
+
+theorem OpsSchedOK_append {s : Server} {ops : List Op} {op : Op} (h : OpsSchedOK s (ops ++ [op])) :
+    OpsSchedOK s ops ∧ SchedOK (run s ops) op := by
+  induction ops generalizing s with
+  | nil => exact ⟨trivial, h.1⟩
+  | cons o rest ih =>
+    obtain ⟨a, b⟩ := ih h.2
+    exact ⟨⟨h.1, a⟩, b⟩
 
 end Mochi.Broker
